@@ -644,6 +644,25 @@ func directedMerc() []mercIn {
 			out = append(out, in)
 		}
 	}
+	// threaded rounds whose consensus end equals / is one below / is one above the previous report's end (seeded C09-F): equal and
+	// below must DECLINE WITHOUT ERROR (the new end precedes the start prev+1), one above must report from prev+1
+	for ver := 1; ver <= 4; ver++ {
+		in := mercIn{Cfg: mercCfg{Ver: ver, F: 1, Min: "0", Max: "1000000", Window: 10, MaxLen: 400}}
+		mk := func(prev string, d int64) mercRound {
+			rd := mercRound{Mode: "ok", Prev: prev}
+			for i := 0; i < 4; i++ {
+				o := mercObs{Honest: true, Ts: uint32(5000 + d), PV: true, Bm: i192(big.NewInt(500)), Bid: i192(big.NewInt(499)), Ask: i192(big.NewInt(501)),
+					MfV: true, Mf: 100, LV: true, Link: i192(big.NewInt(1)), NV: true, Native: i192(big.NewInt(2)), SV: true, Status: 2}
+				if ver == 1 {
+					o.Blocks = []mblk{{Num: 7000 + d, Hash: make([]byte, 32), Ts: 1200}}
+				}
+				rd.Obs = append(rd.Obs, o)
+			}
+			return rd
+		}
+		in.Rounds = []mercRound{mk("none", 0), mk("", 0), mk("", -1), mk("", 1), mk("", 1), mk("", 2)}
+		out = append(out, in)
+	}
 	// two values with at least f+1 votes each and unequal counts (f = 2, n = 7): the HIGHER one is the agreed
 	// max-finalized timestamp (v2-v4); for v1 the most common block number wins
 	for ver := 1; ver <= 4; ver++ {
